@@ -20,4 +20,10 @@ fail=$(for m in . ./internal/app; do (cd "$W/wt/$m" && go test -json -vet=off -c
 echo "RESULT build=$build_ok suite_pass=$pass suite_fail=$fail (baseline 228/0)"
 echo "files: $(git diff --stat | tail -1)"
 cd /verif
-for c in ${CHECKS//,/ }; do ./mt "$SRC/patch.diff" "$c" 2>&1 | head -6; done
+# the checks run against the scratch worktree (patch applied there), /repo is not touched
+for c in ${CHECKS//,/ }; do
+  out="$(VERIF_REPO="$W/wt" VERIF_OUT="$W/out" ./vcheck "$c" quick 2>&1)"; rc=$?
+  echo "== patch.diff $c rc=$rc violations_lines=$(echo "$out" | grep -c '^VIOLATION')"
+  echo "$out" | grep -E '^(VIOLATION|HARNESS-ERROR|KNOWN)' | head -3
+  echo "$out" | grep -E '^  (scenario|want|got)' | head -3
+done
